@@ -112,7 +112,9 @@ pub fn child(args: &[String]) -> i32 {
                         let tables = sut::make_tables(&d2).expect("defs");
                         let st = sut::parse(&s2).expect("stmt");
                         let format = if fmt2 == "json" { OutputFormat::Json } else { OutputFormat::Text };
-                        let r = sut::run_files(&tables, &st, &[MAIN_INPUT.as_bytes()], FileRunOpts { format, ..Default::default() });
+                        // the input is given as two files (cut after the fifth line)
+                        let cut = MAIN_INPUT.match_indices('\n').nth(4).map(|(i, _)| i + 1).unwrap();
+                        let r = sut::run_files(&tables, &st, &[MAIN_INPUT[..cut].as_bytes(), MAIN_INPUT[cut..].as_bytes()], FileRunOpts { format, ..Default::default() });
                         let lines = match r {
                             Outcome::Ok(fr) => {
                                 let mut l = fr.printed.clone();
@@ -135,6 +137,57 @@ pub fn child(args: &[String]) -> i32 {
                 }
                 println!("{}", json!({"case": case_no, "defs": di, "stmt": si, "statement": s.replace(&joined, "<joined>"), "format": fmt, "outputs": outputs, "canaries": canaries, "first": first, "shim": shim_ok || !shim_expected}));
             }
+        }
+    }
+    // REAL values whose equality classes have several bit patterns (NaN / -NaN, 0.0 / -0.0) in hashed containers: a
+    // seed-dependent split of such a class shows for few seeds only, so these statements get 40 x the seeds
+    {
+        let ndef = "CREATE TABLE n(line = '^(\\\\S+) (\\\\S+)$', line[1] => k TEXT, line[2] => x REAL);\nCREATE TABLE m(line = '^(\\\\S+) (\\\\S+)$', line[1] => j TEXT, line[2] => x REAL);";
+        let ninput = "a NaN\nb -NaN\nc 1.5\nd NaN\ne -0.0\nf 0.0\ng -NaN\n";
+        let jtmp = sut::TempFiles::new(&[b"p -NaN\nq 0.0\nr NaN\n"]);
+        let nst = vec![
+            "SELECT COUNT(DISTINCT x), COUNT(*) FROM n".to_string(),
+            "SELECT x, COUNT(*) FROM n GROUP BY x".to_string(),
+            "SELECT DISTINCT x FROM n".to_string(),
+            format!("SELECT k, j FROM n INNER JOIN m::'{}' ON n.x = m.x", jtmp.paths[0]),
+            "SELECT array_unique(ARRAY_AGG(x)) FROM n".to_string(),
+        ];
+        for (si, s) in nst.iter().enumerate() {
+            let mut outputs: BTreeMap<String, Vec<u64>> = BTreeMap::new();
+            let mut canaries: BTreeSet<String> = BTreeSet::new();
+            let mut first: Vec<String> = vec![];
+            let mut shim_ok = true;
+            for seed in 0..nseeds * 40 {
+                let s2 = s.clone();
+                let h = std::thread::spawn(move || {
+                    let ok = set_thread_seed(proc_index * 7_000_003 + seed * 104_729 + 11);
+                    let can = canary();
+                    let tables = sut::make_tables(ndef).expect("defs");
+                    let st = sut::parse(&s2).expect("stmt");
+                    let r = sut::run_files(&tables, &st, &[ninput.as_bytes()], FileRunOpts { format: OutputFormat::Json, ..Default::default() });
+                    let lines = match r {
+                        Outcome::Ok(fr) => {
+                            let mut l = fr.printed.clone();
+                            l.push(format!("result={:?}", fr.result));
+                            l
+                        }
+                        Outcome::Err(e) => vec![format!("error {}", e)],
+                        Outcome::Panic(p) => vec![format!("panic {}", p.msg)],
+                    };
+                    (ok, can, lines)
+                });
+                let (ok, can, lines) = h.join().unwrap();
+                shim_ok &= ok;
+                canaries.insert(can);
+                let key = format!("{:016x}", h64(&lines));
+                if first.is_empty() {
+                    first = lines.clone();
+                }
+                outputs.entry(key).or_default().push(seed);
+            }
+            // keep the report small: seeds of the majority output are not listed
+            let outputs: BTreeMap<String, Vec<u64>> = outputs.into_iter().map(|(k, v)| (k, v.into_iter().take(8).collect())).collect();
+            println!("{}", json!({"case": 100000 + si, "defs": 99, "stmt": si, "statement": s.replace(&jtmp.paths[0], "<joined>"), "format": "json", "outputs": outputs, "canaries": canaries, "first": first, "shim": shim_ok || !shim_expected}));
         }
     }
     0
